@@ -59,7 +59,11 @@ def shape(e: ast.AST, vals: str, guard_len, idx_dims: dict):
             # values[i*m:(i+1)*m]
             txt = norm(e.slice)
             if "self._m_tasks" in txt and "self._n_algorithms" not in txt:
-                return ("SEQ", "m")
+                # contiguous blocks of m: values[i*m:(i+1)*m] or values[start:start+m] with start stepping by m
+                lo_names = ({x.id for x in ast.walk(lo) if isinstance(x, ast.Name)} - {"self"}) if lo is not None else set()
+                if lo_names and all(idx_dims.get(nm, "?") in ("n", "start:m") for nm in lo_names):
+                    return ("SEQ", "m")
+                return ("SEQ", "?")
             return ("SEQ", "?")
         if isinstance(e.slice, ast.Name):
             return ("ELEM", idx_dims.get(e.slice.id, "?"))
@@ -81,10 +85,25 @@ def shape(e: ast.AST, vals: str, guard_len, idx_dims: dict):
             if inner[0] == "FLAT":
                 return ("SEQ", inner[1])
             return inner
+    if isinstance(e, ast.Name) and e.id in idx_dims and idx_dims[e.id].startswith("elem:"):
+        return ("ELEM", idx_dims[e.id][5:])
     if isinstance(e, (ast.ListComp, ast.GeneratorExp)) and len(e.generators) == 1 and not e.generators[0].ifs:
         g = e.generators[0]
         d = _range_dim(g.iter)
         idx = dict(idx_dims)
+        if isinstance(g.iter, ast.Name) and g.iter.id == vals and isinstance(g.target, ast.Name):
+            # iterating the tuple itself: one entry per element, the loop variable *is* the element
+            idx[g.target.id] = f"elem:{guard_len}"
+            inner = shape(e.elt, vals, guard_len, idx)
+            return ("LIST", guard_len or "?", inner)
+        if d is None and isinstance(g.iter, ast.Call) and isinstance(g.iter.func, ast.Name) and g.iter.func.id == "range" \
+                and len(g.iter.args) == 3 and isinstance(g.iter.args[0], ast.Constant) and g.iter.args[0].value == 0 \
+                and _dim(g.iter.args[1]) == "n*m" and _dim(g.iter.args[2]) == "m":
+            d = "n"       # range(0, n*m, m) has n steps
+            if isinstance(g.target, ast.Name):
+                idx[g.target.id] = "start:m"
+            inner = shape(e.elt, vals, guard_len, idx)
+            return ("LIST", d, inner)
         if isinstance(g.target, ast.Name):
             idx[g.target.id] = d or "?"
         inner = shape(e.elt, vals, guard_len, idx)
@@ -159,8 +178,11 @@ def run(prog: Program, res: Result) -> None:
             n_br += 1
             sh = shape(r.value, vals, guard_len, {})
             ok, why = is_table(sh)
+            if not ok and "?" in repr(sh):
+                res.errors.append(f"__check_input__ branch len == {guard_len}: shape {show(sh)} not understood (undecided)")
+                continue
             # orientation: per-algorithm (guard n) rows index values by the outer variable; per-task rows are the whole sequence
-            if ok and guard_len == "n" and not (sh[2][0] == "LIST" and sh[2][2] == ("ELEM", "n")):
+            if ok and guard_len == "n" and not (sh[2][0] == "LIST" and sh[2][2] in (("ELEM", "n"),)):
                 ok, why = False, "with one mode per algorithm, row k must repeat values[k] for every task"
             if ok and guard_len == "m" and not (sh[2][0] == "SEQ" or (sh[2][0] == "LIST" and sh[2][2] == ("ELEM", "m"))):
                 ok, why = False, "with one mode per task, every row must be the sequence of per-task modes"
@@ -210,6 +232,12 @@ def run(prog: Program, res: Result) -> None:
     member = [n for n in own_nodes(cm) if isinstance(n, ast.Compare) and isinstance(n.ops[0], ast.In) and dotted(n.comparators[0]) == "ModeSolver"]
     flat = [n for n in own_nodes(cm) if isinstance(n, ast.Call) and dotted(n.func) in ("chain.from_iterable", "itertools.chain.from_iterable")
             and n.args and dotted(n.args[0]) == "self._modes"]
+    # or a nested comprehension over every row and every entry of the row
+    for n in own_nodes(cm):
+        if isinstance(n, (ast.ListComp, ast.GeneratorExp)) and len(n.generators) == 2 and not n.generators[0].ifs and not n.generators[1].ifs \
+                and dotted(n.generators[0].iter) == "self._modes" and isinstance(n.generators[0].target, ast.Name) \
+                and dotted(n.generators[1].iter) == n.generators[0].target.id:
+            flat.append(n)
     alls = [n for n in own_nodes(cm) if isinstance(n, ast.Call) and isinstance(n.func, ast.Name) and n.func.id == "all"]
     okr = okr and len(member) == 1 and len(flat) == 1 and len(alls) == 1
     res.ob(okr, f"{cm.loc()} __check_modes__: all(mode in ModeSolver for every entry) else ValueError", "check_modes")
@@ -239,14 +267,27 @@ def run(prog: Program, res: Result) -> None:
             i_o, v_o = [e.id for e in o.target.elts]
             i_t, v_t = [e.id for e in inner[0].target.elts]
             calls = [n for n in ast.walk(inner[0]) if isinstance(n, ast.Call) and dotted(n.func) == "self.__parallelize__"]
-            okc = len(calls) == 1 and len(calls[0].args) == 5
+            pz_ = prog.func(f"{MT}.__parallelize__")
+            okc = len(calls) == 1
             if okc:
-                a = calls[0].args
+                bound = {}
+                for pn, av in zip(pz_.params[1:], calls[0].args):
+                    bound[pn] = av
+                for k in calls[0].keywords:
+                    bound[k.arg] = k.value
+                okc = all(pn in bound for pn in pz_.params[1:6])
+            if okc:
+                a = [bound[pn] for pn in pz_.params[1:6]]
                 mode_src = origin(ex.node, a[2])
+                gm_ = prog.func(f"{MT}.__get_mode__")
+                gargs = {}
+                if isinstance(mode_src, ast.Call) and dotted(mode_src.func) == "self.__get_mode__":
+                    for pn, av in zip(gm_.params[1:], mode_src.args):
+                        gargs[pn] = av
+                    for k in mode_src.keywords:
+                        gargs[k.arg] = k.value
                 okc = isinstance(a[0], ast.Name) and a[0].id == v_o and isinstance(a[1], ast.Name) and a[1].id == v_t \
-                    and isinstance(mode_src, ast.Call) and dotted(mode_src.func) == "self.__get_mode__" and len(mode_src.args) == 2 \
-                    and isinstance(mode_src.args[0], ast.Name) and mode_src.args[0].id == i_o \
-                    and isinstance(mode_src.args[1], ast.Name) and mode_src.args[1].id == i_t
+                    and len(gargs) == 2 and dotted(gargs.get(gm_.params[1])) == i_o and dotted(gargs.get(gm_.params[2])) == i_t
                 tl = origin(ex.node, a[4])
                 tl_in = tl.args[0] if isinstance(tl, ast.Call) and isinstance(tl.func, ast.Name) and tl.func.id == "list" and tl.args else tl
                 okt = isinstance(tl_in, ast.Call) and isinstance(tl_in.func, ast.Name) and tl_in.func.id == "range" and \
@@ -260,15 +301,21 @@ def run(prog: Program, res: Result) -> None:
                     "the loop body does not call __parallelize__ with its own optimizer and task and the mode of __get_mode__(id_optimizer, id_task)",
                     key="multitask.Multitask.execute::parallelize-call")
             # per algorithm dict + one DataFrame per algorithm
-            resets = [st for st in o.body if isinstance(st, ast.Assign) and isinstance(st.value, ast.Dict) and not st.value.keys]
+            resets = [st for st in o.body if isinstance(st, (ast.Assign, ast.AnnAssign)) and isinstance(st.value, ast.Dict) and not st.value.keys]
             appends = [st for st in o.body if isinstance(st, ast.Expr) and isinstance(st.value, ast.Call) and dotted(st.value.func) == "self._df2.append"]
             okdf = len(resets) == 1 and len(appends) == 1 and o.body.index(resets[0]) < o.body.index(inner[0]) < o.body.index(appends[0])
             if okdf:
-                dname = resets[0].targets[0].id
+                dname = (resets[0].targets[0] if isinstance(resets[0], ast.Assign) else resets[0].target).id
                 arg = appends[0].value.args[0]
-                okdf = isinstance(arg, ast.Call) and dotted(arg.func) in ("pd.DataFrame", "pandas.DataFrame") and arg.args and dotted(arg.args[0]) == dname
+                df_src = arg.args[0] if isinstance(arg, ast.Call) and arg.args else None
+                from ..flow import alias_root
+                df_src = alias_root(ex.node, df_src) if isinstance(df_src, ast.Name) else df_src
+                okdf = isinstance(arg, ast.Call) and dotted(arg.func) in ("pd.DataFrame", "pandas.DataFrame") and dotted(df_src) == dname
                 stores = [n for n in ast.walk(inner[0]) if isinstance(n, ast.Subscript) and isinstance(n.ctx, ast.Store) and dotted(n.value) == dname]
-                okdf = okdf and len(stores) == 1 and v_t in {x.id for x in ast.walk(stores[0].slice) if isinstance(x, ast.Name)}
+                def _names_of_slice(sl):
+                    sl = origin(ex.node, sl) if isinstance(sl, ast.Name) else sl
+                    return {x.id for x in ast.walk(sl) if isinstance(x, ast.Name)}
+                okdf = okdf and len(stores) == 1 and v_t in _names_of_slice(stores[0].slice)
             res.ob(okdf, f"{mod.relpath}: one DataFrame per algorithm from a per-algorithm dict keyed by task", "per-algorithm-table")
             if not okdf:
                 bad("R3-one-table-per-algorithm", o, "execute() does not build one DataFrame per algorithm with one column per task",
@@ -285,6 +332,7 @@ def run(prog: Program, res: Result) -> None:
     ok4 = len(maps) == 1 and len(maps[0].args) == 2
     if ok4:
         f0, seq = maps[0].args
+        f0 = origin(pz.node, f0) if isinstance(f0, ast.Name) else f0
         kws = {k.arg: dotted(k.value) for k in f0.keywords} if isinstance(f0, ast.Call) else {}
         ok4 = isinstance(f0, ast.Call) and dotted(f0.func) == "partial" and f0.args and dotted(f0.args[0]) == "self.__run__" \
             and kws == {"optimizer": pz.params[1], "task": pz.params[2], "mode": pz.params[3]} and dotted(seq) == pz.params[5]
@@ -301,6 +349,7 @@ def run(prog: Program, res: Result) -> None:
     if okrn:
         kws = {k.arg: k.value for k in calls[0].keywords}
         mv = kws.get("mode")
+        mv = origin(rn.node, mv) if isinstance(mv, ast.Name) else mv
         okrn = mv is not None and any(isinstance(x, ast.Name) and x.id == rn.params[4] for x in ast.walk(mv))
     res.ob(okrn, f"{rn.loc()} __run__: optimizer.optimize(task, mode=str(mode), ..)", "__run__")
     if not okrn:
